@@ -89,6 +89,17 @@ CLAIMED["C02"] = (
     "DESIGN.md 3 C02",
 )
 
+CLAIMED["C03"] = (
+    "SMT string query (generated from the AST of calc_descriptor_hash and the real name regex) for identifier-collision witnesses; bounded symbolic "
+    "exploration of registry pre-states and write histories (CrossHair closes every path; the concrete part of a path runs the real writers/readers)",
+    "For a universe of seven record kinds that contains a solver-found pair with coinciding identifiers, a same-name type, nested holders and (nested) grouped "
+    "records, every subset of kinds already emitted x every last-emitted kind x every next kind, and every history of 3 (4 thorough) steps over two writers open at "
+    "the same time, is written through the real binary and JSON writers and read back: each record must carry exactly its own descriptor and values. Histories are the "
+    "symbolic dimension and are closed exhaustively within the bound; the value dimension is the collision query, decided by the solver over all names <= 6 characters.",
+    "Trusted: nothing is stubbed at the stream layer. Outside: collisions of the 32-bit truncation of SHA-256 between different hash inputs; histories longer than the bound.",
+    "DESIGN.md 3 C03",
+)
+
 NOT_APPLICABLE = {
     "C13": "every operation the property constrains (datetime construction/arithmetic, fromisoformat, zoneinfo, fastavro/sqlite3 conversions) is C code; "
     "CrossHair realises each datetime component at the C constructor and the repo-side logic is two value-free ifs, so no value-level case would be decided by the solver (DESIGN.md 6)",
